@@ -1,6 +1,7 @@
 package osutil
 
 import (
+	"errors"
 	"io"
 	"os"
 )
@@ -18,6 +19,14 @@ func CopyFile(srcPath, destPath string) (int64, error) {
 		return 0, err
 	}
 	defer src.Close()
+
+	// os.Create truncates: refuse to copy a file onto itself (same path under
+	// another spelling, through a symlink or a hard link) before any data is lost.
+	if srcInfo, err := src.Stat(); err == nil {
+		if destInfo, err := os.Stat(destPath); err == nil && os.SameFile(srcInfo, destInfo) {
+			return 0, errors.New("osutil: " + srcPath + " and " + destPath + " are the same file")
+		}
+	}
 
 	dest, err := os.Create(destPath)
 	if err != nil {
